@@ -51,9 +51,15 @@ func semaAcquire(addr *uint32) {
 		st.mu.Lock()
 		for {
 			v = latomic.LoadUint32(addr)
-			if v != 0 && latomic.CompareAndSwapUint32(addr, v, v-1) {
-				st.mu.Unlock()
-				return
+			if v != 0 {
+				if latomic.CompareAndSwapUint32(addr, v, v-1) {
+					st.mu.Unlock()
+					return
+				}
+				// Lost a race for a permit that exists: re-read the count.
+				// Sleeping here could leave this thread waiting forever
+				// next to an available permit.
+				continue
 			}
 			st.waiters++
 			st.cond.Wait(&st.mu)
